@@ -8,14 +8,23 @@ package deployment
 @*/
 /*@ immutable types/deployment.subscription.parent types/deployment.subscription.outch types/deployment.subscription.cache
   types/deployment.cache.parent types/deployment.controller.parent types/deployment.controller.cache types/deployment.filterController.filterParent
-  types/deployment.filterSubscription.filterParent
+  types/deployment.filterSubscription.filterParent types/deployment.filterController.controller
 @*/
 /*@ nonblocking-send types/deployment.subscription.outch
 @*/
 
 /*@ theory deploymenttyped
 ;; theory lists wiring
-;; uses types/deployment.event
+;; uses types/deployment.event types/deployment.controller
+(declare-fun |F!types/deployment.filterController!controller| (V) |S!types/deployment.controller|)
+(assert (forall ((c V)) (! (=> (= (dyntype c) |ty!*types/deployment.filterController|)
+                               (not (= (|types/deployment.controller.parent| (|F!types/deployment.filterController!controller| c)) vnil)))
+                          :pattern ((|F!types/deployment.filterController!controller| c)))))
+(declare-fun |F!types/deployment.controller!parent| (V) V)
+; object invariant of the typed controllers (they are only built by newController / newFilterController,
+; whose precondition is a non-nil parent; the field is immutable)
+(assert (forall ((c V)) (! (=> (or (= (dyntype c) |ty!*types/deployment.controller|) (= (dyntype c) |ty!*types/deployment.filterController|))
+                               (not (= (|F!types/deployment.controller!parent| c) vnil))) :pattern ((|F!types/deployment.controller!parent| c)))))
 (define-fun isT ((o V)) Bool (and (not (= o vnil)) (= (dyntype o) |ty!*apps/v1.Deployment|)))
 (declare-fun tevt-type (V) Str)
 (declare-fun tevt-res (V) V)
@@ -239,6 +248,23 @@ package deployment
   at call(Refilter) assert [refilters-the-untyped-subscription-with-the-given-filter] (and (= $recv {s.filterParent}) (= $0 {f}))
 @*/
 
+/*@ func types/deployment.NewMonitor
+  props C20 C16
+  theory deploymenttyped
+  allow panic
+  note NewMonitor panics for a Publisher that is not one of this package's controllers (documented in the code)
+  requires (and (not (= {publisher} vnil)) (not (= {handler} vnil)))
+  at call(OnInitialize) assert [initialize-adapter] (= (closureOf $0) "types/deployment.NewMonitor$1")
+  at call(OnCreate) assert [create-adapter-calls-oncreate] (= (closureOf $0) "types/deployment.NewMonitor$2")
+  at call(OnUpdate) assert [update-adapter-calls-onupdate] (= (closureOf $0) "types/deployment.NewMonitor$3")
+  at call(OnDelete) assert [delete-adapter-calls-ondelete] (= (closureOf $0) "types/deployment.NewMonitor$4")
+  ensures (=> (= result1 vnil) (not (= result0 vnil)))
+@*/
+/*@ func types/deployment.BuildHandler
+  props C20
+  fresh result
+  ensures (not (= result vnil))
+@*/
 /*@ func types/deployment.NewMonitor$1
   props C20 C16
   theory deploymenttyped
